@@ -168,6 +168,8 @@ def run(ctx, rep):
     always_processed_rule(P, rep, 'R-C01-14')
     modified_file_flagged_rule(P, rep, 'R-C01-15')
     optional_source_not_fatal_rule(P, rep, 'R-C01-18')
+    link_recreate_rule(P, rep, 'R-C01-19')
+    C04.hash_length_rule(P, rep, 'R-C01-2l')
     C04.rehash_pairing_rule(P, rep, 'R-C01-17')
     from .carried import nullable_array_rule
     nullable_array_rule(P, rep, 'R-C01-16')
@@ -357,3 +359,23 @@ def optional_source_not_fatal_rule(P, rep, rid):
         rep.check(not fatal, rid, 'search_file_compare: read failure of a candidate is not fatal', c.loc(),
                   'failure returns to the caller' if not fatal else 'a candidate that cannot be read (the damaged file itself has the wanted size and time-stamp) ends the process with exit(): one unreadable sector makes fix and check stop before the parity is used',
                   function='search_file_compare', construct='read failure fatal')
+
+
+def link_recreate_rule(P, rep, rid):
+    """fix recreates a recorded hard link or symbolic link that is missing or wrong.  Whatever sits at the path (a link to another
+    target, a stale copy of the file, a link to another inode) must be removed first: link() and symlink() fail with EEXIST otherwise
+    and the entry is reported unrecoverable although everything needed to recreate it is there.  Rule: in state_check_process every
+    hardlink() / symlink() call is dominated by remove() of the same path."""
+    f = P.fn('state_check_process')
+    rep.analysed(f)
+    rep.rule(rid, 'state_check_process: hardlink() and symlink() that recreate a recorded link are dominated by remove() of the path they create', 2)
+    mk = [c for c in f.calls({'hardlink', 'symlink', 'link'})]
+    rm = list(f.calls({'remove', 'unlink'}))
+    if len(mk) < 2:
+        raise AnalysisBroken('state_check_process: link creation calls not found (%d)' % len(mk))
+    for c in mk:
+        newp = f.expr(c.ops[1])
+        ok = any(f.expr(r.ops[0]) == newp and f.dominates(r, c) for r in rm)
+        rep.check(ok, rid, '%s(.., %s) is preceded by remove(%s)' % (c.callee, newp[:30], newp[:30]), c.loc(),
+                  'removal dominates the creation' if ok else 'no remove() of %s dominates this %s(): when something already exists at the path (the very reason the link is being fixed) the call fails with EEXIST and the link is reported unrecoverable' % (newp[:40], c.callee),
+                  function='state_check_process', construct='%s without prior remove' % c.callee)
